@@ -180,7 +180,10 @@ Definition first_real_svg (ns : list node) : bool :=
 
 Definition bb_opt_union (a b : option bbox) : option bbox :=
   match a, b with Some x, Some y => Some (bb_combine N x y) | Some x, None => Some x | None, y => y end.
-Definition is_fatal (k : errkind) : bool := mem_str (errkind_name k) fatal_errors.
+(* limit errors end the retry loop at once (generated list). EInternalLogic is the model's own marker for a panic site or an
+   operation outside the executable instance (the modelled code paths never produce it): it is never retried either *)
+Definition is_fatal (k : errkind) : bool :=
+  (mem_str (errkind_name k) fatal_errors || match k with EInternalLogic => true | _ => false end)%bool.
 Definition is_graphics (e : el) : bool := mem_str (ename N e) graphics_elements.
 
 (* inner text of a container: Some text if the content is only text / CDATA (the first text, or the last CDATA) *)
